@@ -18,12 +18,74 @@ def add(pid, technique, text, note, ref):
     CHECKS[pid] = dict(technique=technique, text=text, note=note, ref=ref)
 
 
-add("C01", "property-based testing (Hypothesis) + exhaustive small-scope enumeration vs brute-force DP oracle",
-    "Exploration: every string up to a length bound on 1-4 letter alphabets in one call (k=1..4) plus thousands of "
-    "generated clonal-family repertoires, compared as multisets with an independent Wagner-Fischer all-pairs oracle. "
-    "Right level because the claim is for-all-inputs with a cheap exact oracle; absence beyond the explored bounds is not established.",
-    "Trusted: own DP oracle (cross-checked with the Levenshtein C library at start-up), Hypothesis generation; inputs passed as lists.",
-    "DESIGN.md section 4, C01")
+PBT = "property-based testing (Hypothesis)"
+ENTRIES = {
+ "C01": (PBT + " + exhaustive small-scope enumeration vs brute-force DP all-pairs oracle",
+   "every string up to a length bound on 1-4 letter alphabets in one call (k=1..4) plus thousands of generated clonal-family repertoires, multiset equality with an independent Wagner-Fischer all-pairs oracle",
+   "own DP oracle (cross-checked with the Levenshtein C library at start-up); inputs passed as lists"),
+ "C02": (PBT + " + exhaustive enumeration of multiplicity patterns vs exact Fraction pair counting; metamorphic relations",
+   "all integer partitions of N<=10 (13 thorough) and all pattern pairs N1,N2<=5 (6), random samples / tables incl. adversarial separator rows, compared to literal pair counting in exact rationals, plus permutation / relabelling / pc_n / pc_joint identities",
+   "cell text without '.' / '_', numeric columns integer typed without missing cells (stated domain); tolerance 1e-12"),
+ "C03": (PBT + ", rule-based state machine for lookup histories, exhaustive small universes vs brute-force cross oracle",
+   "generated (reference, query) pairs through all four two-collection entry points and up to 12-step lookup histories against one SymdelDB + LookupDB, each answer compared with the oracle and with a fresh one-shot search; database state snapshotted",
+   "LookupDB cases restricted to amino-acid strings and k<=2 (its edit ball is exponential)"),
+ "C04": (PBT + " + exhaustive 3-letter universes + radius-boundary family; three-way differential (engine / brute force / nearest_neighbor)",
+   "all strings <=L over ACD/CDE/AWY for k=1..3, boundary pairs at exactly sqrt(2)*k for k<=20 (40), random amino-acid repertoires with compression",
+   "hash_based radius 3 only on strings of length <= 2-3"),
+ "C05": (PBT + " vs own distance + histogram oracle; enumerated sub-multisets for maxseqs",
+   "generated collections, second collections, TCR tables, bin edge vectors, pseudocounts, custom Metric subclass; counts compared exactly, normalised values at 1e-12; bins=0 == pc, distance-0 count, default metric choice, background alignment",
+   "sub-multiset oracle for maxseqs is independent of how the RNG is consumed"),
+ "C06": ("exact rational enumeration of every count vector at generated rational points of the simplex (Hypothesis-drawn N, K, p)",
+   "E[pc_n] == sum p^2 and E[varpc_n] == Var[pc] checked with == through the real functions on Fraction object arrays, for every composition of N into K parts; float path at 1e-10; stdpc relations",
+   "identity established at sampled rational points / sizes (Schwartz-Zippel argument), not symbolically"),
+ "C07": (PBT + " + exhaustive AC universes in several interleavings vs brute-force Hamming oracle",
+   "mixed-length lists with explicit interleaving patterns through all engines (self and two-collection) in Hamming mode, multiset equality",
+   "amino-acid alphabet"),
+ "C08": (PBT + " vs own (weighted) DP per cell and condensed-index formula",
+   "string collections incl. 200-400 long strings and Unicode, weight triples 1..30 incl. asymmetric, SciPy layout of calc_pdist_vector, functional pdist/cdist with metric callables and keyword forwarding",
+   "weighted values < 2^24 (float32 exact); default uint8 only used when values fit"),
+ "C09": (PBT + " vs independently computed weighted sum over chains and loops; metamorphic identities; enumerated rejection classes",
+   "generated anchor/comparison tables over V alleles from the gene reference (incl. alleles without CDR2), all six classes x weight vectors, additivity, permutation, index relabelling, pdist layout, ValueError rejection, input tables unchanged",
+   "tidytcells' allele -> CDR lookup is trusted"),
+ "C10": (PBT + " differential over output formats and containers; enumerated invalid-argument classes",
+   "search cases x 3 output types x 8 containers (both collections) x 8 entry points against the brute-force triplets / dense matrix; 25 invalid-argument classes x 4 public engines must raise",
+   "any exception type counts as rejection"),
+ "C11": (PBT + " + enumerated (list size x n_cpu) grid; differential vs single-process run and brute force; validity predicate for max_returns",
+   "every chunking ratio incl. n_cpu > len(seqs) (grid 11x7 quick, 40x16 thorough), compression 1..25, default / hamming / custom modes, max_returns semantics",
+   "fork start method; Pool.map ordering; OS-level worker interleavings not controlled"),
+ "C12": ("exhaustive enumeration of all strings up to a length bound on 1-4 letter alphabets + " + PBT + " vs brute-force distance oracle",
+   "levenshtein_neighbors / hamming_neighbors (all position subsets) / next_nearest_neighbors exhaustively, pair utilities and nndist_hamming on generated and enumerated inputs, multiset equality (each neighbour exactly once)",
+   "pair utilities on unique sequences; nndist on equal-length strings"),
+ "C13": (PBT + " vs dict-based grouping + the C02/C05 oracles and an independently derived variance estimator",
+   "generated tables with unsorted keys, singleton groups, weights, bases, bins / bins=0, condensed / square forms",
+   "square form decided on bins=0"),
+ "C14": (PBT + " vs two-radius brute-force oracle; exhaustive sweep of the bundled tables",
+   "7 symmetric custom distances x 6 engines x finite/infinite radii; nearest_neighbor_tcrdist vs brute force on the stand-in; every entry of both V-gene CSVs",
+   "tcrdist decided against the vendored pwseqdist stand-in"),
+ "C15": (PBT + " vs union-find components and SciPy on own distances; cross-module identity",
+   "neighbour lists produced by the real search functions incl. empty ones, 4-7 clustering methods, hierarchical clustering x linkage/criterion, single-linkage == neighbour-graph components",
+   "igraph RNG seeded through Python's random"),
+ "C16": (PBT + " + enumerated (f1, f2) grid vs closed forms in exact Fractions / Python set algebra",
+   "frequency-of-frequency vectors up to 10^6, all containers incl. sets, missing values, symmetry / duplication invariance",
+   "NaN represents 'undefined'"),
+ "C17": (PBT + " with seeded NumPy RNG; conservation invariants and Hoeffding-bounded moment tests",
+   "subsample conservation laws for generated count vectors and every kind of n, hypergeometric first / second / cross moments over 20000 draws at delta=1e-12, downsample identity / sub-multiset, power-law support and distribution, MLE closed forms and grid-dominance for 'exact'",
+   "Hoeffding bounds (rigorous, no CLT)"),
+ "C18": (PBT + " over recursive object trees, per-cell differential vs tidytcells, dict-based join model",
+   "predicates on arbitrary object trees (total, bool), standardize_dataframe per-cell equality / locality / purity over option combinations, multimerge vs join model",
+   "tidytcells is the per-cell oracle"),
+ "C19": (PBT + " with headless matplotlib; artist data read back; regex language equivalence by exhaustive / sampled strings",
+   "regex vs own DP language membership, consensus, logo counts, rank-frequency line data, colour maps, scatter multiplicities, cluster-map linkage / order / split heat map",
+   "pixels not inspected; no external aligner"),
+ "C20": ("rule-based state machine (Hypothesis) over a catalogue of API calls + enumerated ordered pairs; differential vs fresh-interpreter references; delta-minimised histories",
+   "argument snapshots before/after every call and result equality with the same call executed alone in a fresh interpreter, over generated histories and ordered pairs (all pairs in the thorough tier)",
+   "fixed catalogue of representative calls; a mismatch is reported only after reproduction in a fresh interpreter"),
+}
+for _pid, (_tech, _text, _note) in ENTRIES.items():
+    add(_pid, _tech,
+        "Exploration: " + _text + ". Right level because the property is a for-all claim with an executable exact oracle; nothing beyond the explored bounds is established.",
+        "Trusted base / assumptions: " + _note + "; Hypothesis generation seeded from VERIF_SEED.",
+        "DESIGN.md section 4, " + _pid)
 
 NOT_APPLICABLE = []
 
